@@ -1,0 +1,43 @@
+//go:build verif
+
+package service
+
+// Contracts checked by /verif/goavc (comment-only file, built only with -tags verif).
+
+// ---- requirement data handed to the endpoint template (C06) -----------------------------------
+// "A method runs only when at least one requirement has all of its schemes' callbacks succeed": the template
+// iterates RequirementData.Schemes, so every scheme of a design requirement must be present in the data of
+// that requirement (none dropped because another requirement of the method already uses it), with the
+// requirement's own scopes.
+
+// Append adds d unless a scheme of that name is already listed; what was listed stays, in place.
+//@ func SchemesData.Append
+//@   params s d
+//@   property C06
+//@   requires d != nil
+//@   ensures* listed: exists k int :: 0 <= k && k < len(result) && result[k].SchemeName == d.SchemeName
+//@   ensures* kept: len(result) >= len(s) && len(result) <= len(s) + 1 && (forall i int :: 0 <= i && i < len(s) ==> result[i] == old(s[i]))
+//@   ensures new.entry: len(result) == len(s) + 1 ==> result[len(s)] == d
+//@   ensures array: (result.arr == s.arr && result.off == s.off) || fresh(result)
+//@   loop 1 invariant scan: !found && (forall i int :: 0 <= i && i <= rangeindex ==> s[i].SchemeName != d.SchemeName)
+//@   modifies elems(s)
+
+//@ func buildMethodData
+//@   params m scope
+//@   locals rs req schemes
+//@   opt forget-before-loop 2
+//@   opt inline none
+//@   property C06
+//@   requires scope != nil && scope.counts != nil
+//@   unknown_calls_preserve fieldsOf(codegen.NameScope)
+//   -- the data built for a scheme carries the scheme's name (ASSUMED here; BuildSchemeData is a per-kind table of field copies)
+//@   callspec BuildSchemeData params s0 m0
+//@       ensures result != nil && fresh(result) && result.SchemeName == s0.SchemeName
+//@       modifies nothing
+//@   at fieldstore RequirementData.Schemes assert* all.schemes.of.the.requirement: forall j int :: 0 <= j && j < len(ranged(3)) ==> (exists k int :: 0 <= k && k < len(value) && value[k].SchemeName == ranged(3)[j].SchemeName)
+//@   at fieldstore RequirementData.Scopes assert* own.scopes: value == req.Scopes
+//@   loop 3 invariant covered: (rs.arr == 0 || rs.arr != schemes.arr) && ranged(3) == req.Schemes && (forall j int :: 0 <= j && j <= rangeindex#3 ==> (exists k int :: 0 <= k && k < len(rs) && rs[k].SchemeName == ranged(3)[j].SchemeName))
+//@   loop 2 modifies elems(*SchemeData)
+//@   loop 2 modifies elems(*RequirementData)
+//@   loop 3 modifies elems(*SchemeData)
+//@   modifies all
